@@ -33,6 +33,7 @@ import (
 	"strconv"
 	"strings"
 	"sync"
+	"sync/atomic"
 	"testing"
 	"unicode/utf8"
 
@@ -118,6 +119,15 @@ func nameOf(format, gamertag string) (name string, pan any) {
 	return geyser.VerifJavaCompatibleUsername(name), nil
 }
 
+var handlerNames atomic.Int64
+
+// nameViaHandler asks the Geyser integration's real onGameProfile handler (through the hook)
+// which Java profile name a Bedrock player with this gamertag gets under this format.
+func nameViaHandler(format, gamertag string) (name string, pan any) {
+	defer func() { pan = recover() }()
+	return geyser.VerifC40GameProfile(format, gamertag, 2535405290989773).Name, nil
+}
+
 func nameDefect(name string) string {
 	if name == "" {
 		return "empty"
@@ -196,6 +206,20 @@ func TestC40(t *testing.T) {
 					r.LogCase(map[string]any{"format": format, "gamertag_quoted": strconv.Quote(tag)})
 				}
 				name, pan := nameOf(format, tag)
+				if i < len(formats)*64 || i%16 == 0 {
+					// the same question put to the integration's real GameProfileRequestEvent handler
+					// (the two lines above mirror its call site; this runs it)
+					hn, hpan := nameViaHandler(format, tag)
+					handlerNames.Add(1)
+					if hpan != nil {
+						r.Violation("java-name-panic", fmt.Sprintf("the integration's game profile handler panicked: %v", hpan), map[string]any{"format": format, "gamertag_quoted": strconv.Quote(tag)})
+						continue
+					}
+					if hn != name {
+						// judge what the handler really assigns
+						name = hn
+					}
+				}
 				wit := func() map[string]any {
 					return map[string]any{"format": format, "gamertag_quoted": strconv.Quote(tag), "gamertag_class": class, "java_name_quoted": strconv.Quote(name)}
 				}
@@ -250,6 +274,7 @@ func TestC40(t *testing.T) {
 	r.Set("names_changed_by_normalization", changed)
 	r.Set("names_truncated_to_16", truncated)
 	r.Set("formats", len(formats))
+	r.Set("names_obtained_from_the_real_game_profile_handler", handlerNames.Load())
 
 	// ---- 2. XUID -> UUID -----------------------------------------------------------------
 	nSeq := r.N(200_000, 1_500_000) // per sequential block
